@@ -110,7 +110,6 @@ Section Methods.
   (* the result of a method applied to base state b (commands and packets) *)
   Definition msum (b d' : dbstate) : Prop :=
     st_state d' <> Fresh /\ st_state d' <> Complete /\
-    st_final_group d' = st_final_group d' /\
     ( (st_state d' = st_state b /\ st_epoch d' = st_epoch b /\ is_proposal_phase b = true)
       \/ (valid_change (st_state b) (st_state d') = true /\ st_epoch d' = st_epoch b
           /\ st_state d' <> Proposing /\ st_state d' <> Proposed)
@@ -121,7 +120,7 @@ Section Methods.
 
   Ltac simple_method H :=
     brk H; inversion H; subst; clear H;
-    split; [simpl; discriminate|]; split; [simpl; discriminate|]; split; [reflexivity|];
+    split; [simpl; discriminate|]; split; [simpl; discriminate|];
     right; left; simpl; repeat split; try discriminate; auto.
 
   Lemma negb_false : forall b, negb b = false -> b = true.
@@ -165,21 +164,21 @@ Section Methods.
   Proof.
     unfold do_received_acceptance; intros d them md d' H. brk H. inversion H; subst; clear H.
     apply negb_false in E. pose proof (phase_not_complete_fresh _ E) as [P1 P2].
-    split; [simpl; auto|]. split; [simpl; auto|]. split; [reflexivity|]. left; simpl; auto.
+    split; [simpl; auto|]. split; [simpl; auto|]. left; simpl; auto.
   Qed.
 
   Lemma do_received_rejection_sum : forall d them md d', do_received_rejection d them md = Ok d' -> msum d d'.
   Proof.
     unfold do_received_rejection; intros d them md d' H. brk H. inversion H; subst; clear H.
     apply negb_false in E. pose proof (phase_not_complete_fresh _ E) as [P1 P2].
-    split; [simpl; auto|]. split; [simpl; auto|]. split; [reflexivity|]. left; simpl; auto.
+    split; [simpl; auto|]. split; [simpl; auto|]. left; simpl; auto.
   Qed.
 
   Lemma do_proposed_sum : forall now me d t md d', do_proposed joiner_ok now me d t md = Ok d' -> msum d d'.
   Proof.
     unfold do_proposed; intros now me d t md d' H. brk H. inversion H; subst; clear H.
     apply negb_false in E. pose proof (validate_proposal_epoch _ _ _ E2) as VE.
-    split; [simpl; discriminate|]. split; [simpl; discriminate|]. split; [reflexivity|].
+    split; [simpl; discriminate|]. split; [simpl; discriminate|].
     right; right; simpl. split; [assumption|]. split; [apply validate_epoch_strict; assumption|].
     split; [apply validate_epoch_next; assumption|]. auto.
   Qed.
@@ -188,7 +187,7 @@ Section Methods.
   Proof.
     unfold do_proposing; intros now lm d t d' H. brk H. inversion H; subst; clear H.
     apply negb_false in E. pose proof (validate_proposal_epoch _ _ _ E1) as VE.
-    split; [simpl; discriminate|]. split; [simpl; discriminate|]. split; [reflexivity|].
+    split; [simpl; discriminate|]. split; [simpl; discriminate|].
     right; right; simpl. split; [assumption|]. split; [apply validate_epoch_strict; assumption|].
     split; [apply validate_epoch_next; assumption|]. auto.
   Qed.
@@ -374,7 +373,7 @@ Section Proc.
   Lemma saved_inv : forall s s' d', inv s -> saved s s' d' -> inv s'.
   Proof.
     intros s s' d' I [C [F M]]. pose proof I as [I1 I2].
-    destruct M as [NF [NC [_ M]]].
+    destruct M as [NF [NC M]].
     split.
     - intros f Ff. rewrite F in Ff. destruct (I1 f Ff) as [S [G [K _]]].
       repeat split; auto. exists d'; split; auto.
@@ -433,7 +432,7 @@ Section Proc.
     st_state (get_current B s') = st_state (get_current B s)
     \/ valid_change (st_state (effective B s)) (st_state (get_current B s')) = true.
   Proof.
-    intros s s' d' I [C [F [_ [_ [_ M]]]]]. unfold get_current at 1 3; rewrite C.
+    intros s s' d' I [C [F [_ [_ M]]]]. unfold get_current at 1 3; rewrite C.
     destruct M as [[Es [_ Ph]] | [[V _] | [V _]]]; auto.
     left. destruct (eff_cases s) as [[_ E] | [T _]]; [rewrite E in Es; exact Es|].
     exfalso. unfold is_proposal_phase in Ph. apply phase_not_complete_fresh in Ph. destruct Ph as [P1 P2].
@@ -502,7 +501,7 @@ Section Proc.
     st_epoch (effective B s) <= st_epoch d'
     /\ (is_terminal (st_state (get_current B s)) = true -> st_epoch (effective B s) < st_epoch d').
   Proof.
-    intros s s' d' I [C [F [_ [_ [_ M]]]]]. pose proof (eff_nonterminal s I) as NT.
+    intros s s' d' I [C [F [_ [_ M]]]]. pose proof (eff_nonterminal s I) as NT.
     destruct M as [[Es [Ee Ph]] | [[V [Ee [N1 N2]]] | [V [Lt _]]]].
     - split; [lia|]. intros T. exfalso. unfold is_proposal_phase in Ph. apply phase_not_complete_fresh in Ph.
       destruct Ph as [P1 P2]. destruct (fallback_base s I T) as [[f [_ [E S]]] | [_ E]]; rewrite E in *; [contradiction|apply P2; reflexivity].
@@ -549,7 +548,7 @@ Section Proc.
   Lemma saved_tight : forall s s' d', inv s -> tight s -> st_state (get_current B s) <> Left -> saved s s' d' ->
     tight s' /\ st_epoch (get_current B s) <= st_epoch (get_current B s').
   Proof.
-    intros s s' d' I (f & c & Ff & Cc & Ep) NL S. pose proof S as [C [F [_ [_ [_ M]]]]].
+    intros s s' d' I (f & c & Ff & Cc & Ep) NL S. pose proof S as [C [F [_ [_ M]]]].
     pose proof I as [I1 I2]. destruct (I1 f Ff) as [Sf _]. destruct (I2 c Cc) as [NFr CF].
     pose proof (eff_nonterminal s I) as NT.
     unfold get_current in *; rewrite Cc in *. rewrite C.
